@@ -62,6 +62,7 @@ type FamilyReport struct {
 	WallS        float64           `json:"wall_s"`
 	Cached       bool              `json:"cached"`
 	HarnessErr   []string          `json:"harness_errors"`
+	AltRuns      int               `json:"alt_runs"` // alternative renderings of runs (C14 / C15 / C16) executed
 }
 
 // SessFamily describes one session family: which TLC model enumerates it.
@@ -79,6 +80,11 @@ var sessFamilies = map[string]SessFamily{
 	"badfrom": {"badfrom", "MC_SessBadFrom", []string{"C06"}},
 	"badto":   {"badto", "MC_SessBadTo", []string{"C06"}},
 	"genmap":  {"genmap", "MC_GenMap", []string{"C01", "C02"}},
+	"genflags":  {"genflags", "MC_GenFlags", []string{"C10"}},
+	"genselect": {"genselect", "MC_GenSelect", []string{"C12"}},
+	"genwhole":  {"genwhole", "MC_GenWhole", []string{"C18", "C03", "C02"}},
+	"genconfig": {"genconfig", "MC_GenConfig", []string{"C16"}},
+	"gendet":    {"gendet", "MC_GenDet", []string{"C14"}},
 }
 
 type vector struct {
@@ -428,6 +434,12 @@ func runSessionFamily(env *pipeline.Env, fam SessFamily, tier string, seed int64
 		d.Pkg = s.runKey()
 		variants = append(variants, pipeline.Variant{Key: s.runKey(), D: d, C: c, Seed: variantSeed(s, seed)})
 	}
+	faulty := map[string]bool{}
+	for _, v := range variants {
+		if v.C.Fault != "" {
+			faulty[v.Key] = true
+		}
+	}
 	res, err := env.GenerateAll(variants, 12)
 	if err != nil {
 		return nil, err
@@ -442,9 +454,10 @@ func runSessionFamily(env *pipeline.Env, fam SessFamily, tier string, seed int64
 		if r.Compile != "" {
 			rep.CompileFail[r.Key] = r.Compile
 		}
-		if r.Exit != 0 || r.Content == "" {
+		if (r.Exit != 0 || r.Content == "") && !faulty[r.Key] {
 			rep.GenFail[r.Key] = fmt.Sprintf("exit %d: %.400s", r.Exit, r.Stderr)
 		}
+		rep.AltRuns += len(r.Alts)
 	}
 	vecPath := filepath.Join(env.W, "vectors-"+fam.Name+".ndjson")
 	f, err := os.Create(vecPath)
